@@ -3,7 +3,7 @@ use parity_scale_codec::{Compact, Decode, Encode};
 #[derive(Encode, Decode)]
 pub enum T {
 	#[codec(skip)] V0 = 0,
-	#[codec(skip)] #[codec(index = 1)] V1,
-	#[codec(skip)] #[codec(index = 2)] V2,
+	#[codec(index = 1)] #[codec(skip)] V1,
+	#[codec(index = 2)] #[codec(skip)] V2,
 }
 fn main() {}
